@@ -5,4 +5,16 @@ open Dashu.Props.C07
 #print axioms print_non_pow2_digits
 #print axioms print_size_classes
 #print axioms big_chunk_padded
+#print axioms print_pow2_digits
 #print axioms layout_eq_pad_integral
+#print axioms print_eq_reference
+#print axioms parse_radix_eq_grammar
+#print axioms parse_default_eq_grammar
+#print axioms parse_ok_sound
+#print axioms parse_no_digits
+#print axioms print_parse_round_trip
+#print axioms print_parse_round_trip_unsigned
+#print axioms le_bytes_round_trip
+#print axioms signed_bytes_round_trip
+#print axioms chunks_round_trip
+#print axioms chunks_zero_panics
